@@ -3,6 +3,7 @@ package generator
 import (
 	"errors"
 	"fmt"
+	"slices"
 	"strings"
 
 	"github.com/google/go-cmp/cmp"
@@ -626,7 +627,15 @@ func (g *schemaGenerator) generateType(t *schemas.Type, scope nameScope) (codege
 			return nil, errArrayPropertyItems
 		}
 
-		elemType, err := g.generateType(t.Items, scope.add("Elem"))
+		// Items that are arrays themselves are part of this type. Any other item type is generated the way a
+		// field's type is: an object becomes a declared struct, which validates itself, instead of an
+		// anonymous one, which nothing validates.
+		generateElem := g.generateTypeInline
+		if t.Items.Ref == "" && t.Items.Enum == nil && slices.Contains(t.Items.Type, schemas.TypeNameArray) {
+			generateElem = g.generateType
+		}
+
+		elemType, err := generateElem(t.Items, scope.add("Elem"))
 		if err != nil {
 			return nil, err
 		}
